@@ -32,6 +32,7 @@ struct World {
     uint64_t deadline_ns = 0;           // absolute sim time after which unfinished threads are "stuck"
     volatile int ndone = 0, vcpus_up = 0, vcpus_down = 0;
     std::function<void(World&)> on_stuck;
+    std::function<void(int)> vcpu_pre;     // optional per-vCPU hook right after vcpu_init, before any script thread exists anywhere
     std::function<void(int)> vcpu_end;     // optional per-vCPU hook after all its threads were joined
     std::function<void(int)> vcpu_extra;   // optional per-vCPU hook run on its main photon thread after spawning
     bool fini = true;
@@ -60,6 +61,7 @@ struct World {
     void vcpu_main(int v) {
         int r = photon::vcpu_init(vcpu_flags.empty() ? 0 : vcpu_flags[v]);
         if (r < 0) sim::finish("error", "harness", "vcpu_init failed");
+        if (vcpu_pre) vcpu_pre(v);
         { sim::NoSched ns; vcpus[v] = photon::get_vcpu(); vcpus_up++; }
         // wait until all vCPUs are up, so cross-vCPU operations have valid targets
         while (vcpus_up < nvcpu) photon::thread_usleep(100);
